@@ -153,9 +153,90 @@ def one_object_two_names(fn):
     return out
 
 
-def scan_function(fn):
+def shallow_copy_of_shared_mutables(fn, shared):
+    """`x = dict(T)` / `T.copy()` / `list(T)` / `copy.copy(T)` where T is a
+    module- or class-level container whose ELEMENTS are mutable displays,
+    followed by an in-place change of an element (`x[k].append(...)`,
+    `x[k][i] = ...`, `x[k] += ...`): the copy is shallow, the element is the
+    one object every call (and the template itself) shares."""
+    out = []
+    copies = {}
+    for n in _own_nodes(fn):
+        if isinstance(n, ast.Assign) and len(n.targets) == 1 and \
+                isinstance(n.targets[0], ast.Name) and \
+                isinstance(n.value, ast.Call):
+            c = n.value
+            src = None
+            if isinstance(c.func, ast.Name) and \
+                    c.func.id in ('dict', 'list', 'set', 'tuple') and \
+                    len(c.args) == 1 and isinstance(c.args[0], ast.Name):
+                src = c.args[0].id
+            elif isinstance(c.func, ast.Attribute) and \
+                    c.func.attr == 'copy' and not c.args and \
+                    isinstance(c.func.value, ast.Name):
+                src = c.func.value.id
+            elif isinstance(c.func, ast.Attribute) and \
+                    c.func.attr == 'copy' and len(c.args) == 1 and \
+                    isinstance(c.args[0], ast.Name):
+                src = c.args[0].id           # copy.copy(T)
+            if src in shared:
+                copies[n.targets[0].id] = (src, n.lineno)
+    if not copies:
+        return out
+    for n in _own_nodes(fn):
+        base = None
+        how = None
+        if isinstance(n, ast.Call) and isinstance(n.func, ast.Attribute) \
+                and n.func.attr in ('append', 'extend', 'insert', 'add',
+                                    'update', 'setdefault', 'pop', 'remove',
+                                    'clear', 'sort') and \
+                isinstance(n.func.value, ast.Subscript):
+            base, how = n.func.value.value, '.%s(...)' % n.func.attr
+        elif isinstance(n, ast.Subscript) and \
+                isinstance(n.ctx, (ast.Store, ast.Del)) and \
+                isinstance(n.value, ast.Subscript):
+            base, how = n.value.value, '[...] = ...'
+        elif isinstance(n, ast.AugAssign) and \
+                isinstance(n.target, ast.Subscript):
+            base, how = n.target.value, 'augmented assignment'
+        if isinstance(base, ast.Name) and base.id in copies:
+            src, line = copies[base.id]
+            out.append((n.lineno, 'shallow-copy-of-shared-mutables:%s' % src,
+                        '%r is a SHALLOW copy of the shared table %s (line '
+                        '%d), whose elements are mutable; line %d changes '
+                        'one of them in place (%s): every later call, and '
+                        'every object that kept an earlier copy, sees it'
+                        % (base.id, src, line, n.lineno, how)))
+            break
+    return out
+
+
+def _shared_mutable_tables(tree):
+    """Module- and class-level containers at least one element of which
+    is a mutable display."""
+    out = set()
+
+    def holds_mutable(v):
+        elems = []
+        if isinstance(v, ast.Dict):
+            elems = v.values
+        elif isinstance(v, (ast.List, ast.Tuple, ast.Set)):
+            elems = v.elts
+        return any(_is_mutable_display(e) for e in elems)
+    for st in tree.body:
+        body = [st] + (list(st.body) if isinstance(st, ast.ClassDef) else [])
+        for x in body:
+            if isinstance(x, ast.Assign) and len(x.targets) == 1 and \
+                    isinstance(x.targets[0], ast.Name) and \
+                    holds_mutable(x.value):
+                out.add(x.targets[0].id)
+    return out
+
+
+def scan_function(fn, shared=()):
     return search_loop_variable(fn) + stale_snapshot(fn) + \
-        one_object_two_names(fn)
+        one_object_two_names(fn) + \
+        shallow_copy_of_shared_mutables(fn, shared)
 
 
 def pitfall_rules(ctx, pid):
@@ -163,9 +244,12 @@ def pitfall_rules(ctx, pid):
     roots = _roots(prog, pid)
     reach = CG.reachable(prog, roots)
     n = 0
+    shared_by_module = {m.name: _shared_mutable_tables(m.tree)
+                        for m in prog.modules.values()}
     for q, fi in sorted(reach.items()):
         n += 1
-        for line, slot, text in scan_function(fi.node):
+        for line, slot, text in scan_function(
+                fi.node, shared_by_module.get(fi.module.name, ())):
             ctx.ob('%s.DP' % pid, q, slot, False,
                    '%s [reached from the entry points of %s]' % (text, pid),
                    loc='%s:%d' % (fi.module.relpath, line))
@@ -216,12 +300,16 @@ def _control():
     except OSError:
         raise AnalysisError('positive-control fixture missing: %s' % fx)
     got = {}
+    shared = _shared_mutable_tables(tree)
     for fn in ast.walk(tree):
         if isinstance(fn, ast.FunctionDef):
-            got[fn.name] = {s.split(':')[0] for _, s, _ in scan_function(fn)}
+            got[fn.name] = {s.split(':')[0]
+                            for _, s, _ in scan_function(fn, shared)}
     want = {'pick_interface': {'search-loop-variable'},
             'frame': {'stale-snapshot'},
             'parse_rule': {'one-object-two-names'},
+            'parse_from_template': {'shallow-copy-of-shared-mutables'},
+            'parse_from_template_ok': set(),
             'pick_guarded': set(), 'pick_else': set(), 'frame_fresh': set(),
             'parse_rule_ok': set()}
     bad = {k: (got.get(k), v) for k, v in want.items() if got.get(k) != v}
